@@ -5,15 +5,23 @@
 //
 // With no scheduler active every entry point is a no-op / behaves like the
 // sync primitive it replaces.
+//
+// Structure (chosen so that a -race build can hide the scheduler from the race
+// detector, see race_on.go): goroutines never touch scheduler state. A
+// goroutine that yields allocates a request, sends it on a buffered channel and
+// blocks on the request's private channel; only the driver goroutine owns the
+// registry, the parked set and the choice. Simulated lock state is the one thing
+// both sides touch; those functions are marked go:norace and use no maps.
 package verifsim
 
 import (
 	"fmt"
 	"hash/fnv"
 	"sort"
+	"strconv"
 	"sync"
 	"sync/atomic"
-	_ "unsafe"
+	"unsafe"
 )
 
 //go:linkname verifGoid runtime.verifGoid
@@ -22,20 +30,24 @@ func verifGoid() uint64
 //go:linkname verifSetSelectHook runtime.verifSetSelectHook
 func verifSetSelectHook(f func(uint32) uint32)
 
-// G is one goroutine known to the scheduler.
+// G is one goroutine known to the scheduler (driver-side record).
 type G struct {
 	ID   uint64
 	Name string
 	Site string // site of the yield it is parked at
 	Seq  int    // registration order
 
-	wake chan struct{}
-	want *lockReq
+	req *request // the request it is parked with (nil: running / blocked elsewhere)
 }
 
-type lockReq struct {
-	c     *rwcore
+type request struct {
+	kind  int // 0 park, 1 register-name
+	goid  uint64
+	site  string
+	name  string
+	want  *rwcore
 	write bool
+	wake  chan struct{}
 }
 
 // Status of one scheduling step.
@@ -55,27 +67,35 @@ type Sched struct {
 	// Choose picks the index of the goroutine to release. cur is the index of
 	// the goroutine released by the previous step inside enabled, or -1.
 	Choose func(step int, cur int, enabled []*G) int
-	// OnLock, if set, is called (on the acquiring goroutine) for every
-	// simulated lock acquisition and release.
-	OnLock func(g *G, lockID int, kind string)
+	// OnLock, if set, is called (on the acquiring goroutine) with the id of the
+	// goroutine (see GoroutineID) for every simulated lock acquisition. Not
+	// used in race builds.
+	OnLock func(goid string, lockID int, kind string)
 
-	mu     sync.Mutex
+	reqCh chan *request
+	pool  sync.Pool
+
+	// driver-only state
 	gs     map[uint64]*G
 	nameN  map[string]int
-	parked map[*G]struct{}
+	parked []*G
 	cur    *G
 	nextG  int
-	nextL  int
 
 	Steps    int
 	Switches int
 	hash     uint64 // running hash of (name, site) at every switch
+
+	trMu     sync.Mutex
 	trace    []string
 	traceCap int
 
+	nextL   atomic.Int64
 	selMode atomic.Uint64
 	stepCtr atomic.Uint64
 	driver  uint64 // goroutine id of the driver: never parks
+
+	driverToken byte // race builds: address used for goroutine -> driver edges
 }
 
 var active atomic.Pointer[Sched]
@@ -83,9 +103,9 @@ var active atomic.Pointer[Sched]
 // New creates a scheduler; Activate makes it the process-wide one.
 func New() *Sched {
 	return &Sched{
+		reqCh:    make(chan *request, 1<<14),
 		gs:       make(map[uint64]*G),
 		nameN:    make(map[string]int),
-		parked:   make(map[*G]struct{}),
 		hash:     1469598103934665603,
 		traceCap: 400,
 	}
@@ -131,110 +151,176 @@ func Active() bool { return active.Load() != nil }
 // Yield is the call the instrumenter inserts before every statement.
 func Yield(site string) {
 	s := active.Load()
-	if s == nil || verifGoid() == s.driver {
+	if s == nil {
 		return
 	}
-	s.park(s.me(site), site, nil)
-}
-
-// Me returns the scheduler's record of the calling goroutine (nil when no
-// scheduler is active).
-func Me() *G {
-	s := active.Load()
-	if s == nil {
-		return nil
-	}
-	return s.me("?")
-}
-
-func (s *Sched) me(site string) *G {
 	id := verifGoid()
-	s.mu.Lock()
-	g := s.gs[id]
-	if g == nil {
-		n := s.nameN[site]
-		s.nameN[site] = n + 1
-		g = &G{ID: id, Name: fmt.Sprintf("%s#%d", site, n), wake: make(chan struct{}, 1), Seq: s.nextG}
-		s.nextG++
-		s.gs[id] = g
+	if id == s.driver {
+		return
 	}
-	s.mu.Unlock()
-	return g
+	r := s.getReq()
+	r.goid, r.site = id, site
+	s.park(r)
+	s.putReq(r)
 }
 
 // NameMe registers the calling goroutine under an explicit name (harness
-// actors). Must be called before the goroutine's first Yield.
+// actors and stub handlers). Must precede the goroutine's first Yield.
 func NameMe(name string) {
 	s := active.Load()
 	if s == nil {
 		return
 	}
 	id := verifGoid()
-	s.mu.Lock()
-	if s.gs[id] == nil {
-		g := &G{ID: id, Name: name, wake: make(chan struct{}, 1), Seq: s.nextG}
-		s.nextG++
-		s.gs[id] = g
-	}
-	s.mu.Unlock()
-}
-
-func (s *Sched) park(g *G, site string, want *lockReq) {
-	s.mu.Lock()
-	if active.Load() != s {
-		s.mu.Unlock()
+	if id == s.driver {
 		return
 	}
-	g.Site = site
-	g.want = want
-	s.parked[g] = struct{}{}
-	s.mu.Unlock()
-	<-g.wake
+	raceDisable()
+	s.reqCh <- &request{kind: 1, goid: id, name: name}
+	raceEnable()
 }
 
-func (s *Sched) lockAvailable(r *lockReq) bool {
-	c := r.c
+// Requests are pooled per scheduler (their channels belong to the run's bubble)
+// in ordinary builds; in race builds each is fresh (a reused object written by
+// two goroutines would look like a race once the scheduler's own
+// synchronisation is hidden).
+func (s *Sched) getReq() *request {
+	if !RaceBuild {
+		if r, ok := s.pool.Get().(*request); ok {
+			return r
+		}
+	}
+	return &request{wake: make(chan struct{}, 1)}
+}
+
+func (s *Sched) putReq(r *request) {
+	if !RaceBuild {
+		*r = request{wake: r.wake}
+		s.pool.Put(r)
+	}
+}
+
+// park hands the request to the driver and blocks until released.
+func (s *Sched) park(r *request) {
+	if active.Load() != s {
+		return
+	}
+	if r.wake == nil {
+		r.wake = make(chan struct{}, 1)
+	}
+	if RaceBuild {
+		// everything this goroutine did so far happens-before what the DRIVER
+		// does after the next quiescence (it reads harness data); this creates
+		// no edge between program goroutines
+		raceReleaseMerge(unsafe.Pointer(&s.driverToken))
+	}
+	raceDisable()
+	s.reqCh <- r
+	<-r.wake
+	raceEnable()
+}
+
+// HarnessSync is called by a harness actor when it ends: what it did becomes
+// visible to the driver (race builds only).
+func HarnessSync() {
+	if s := active.Load(); s != nil && RaceBuild {
+		raceReleaseMerge(unsafe.Pointer(&s.driverToken))
+	}
+}
+
+// RaceDisable / RaceEnable let the harness hide its own bookkeeping
+// synchronisation (stamps) from the race detector.
+func RaceDisable() { raceDisable() }
+func RaceEnable()  { raceEnable() }
+
+// GoroutineID returns the id of the calling goroutine (the value OnLock reports).
+func GoroutineID() string { return strconv.FormatUint(verifGoid(), 10) }
+
+// ---------------------------------------------------------------------------
+// driver side
+
+//go:norace
+func (s *Sched) drain() {
+	for {
+		select {
+		case r := <-s.reqCh:
+			g := s.gs[r.goid]
+			if g == nil {
+				name := r.name
+				if r.kind == 0 {
+					n := s.nameN[r.site]
+					s.nameN[r.site] = n + 1
+					name = r.site + "#" + strconv.Itoa(n)
+				}
+				g = &G{ID: r.goid, Name: name, Seq: s.nextG}
+				s.nextG++
+				s.gs[r.goid] = g
+			}
+			if r.kind == 0 {
+				g.Site = r.site
+				g.req = r
+				s.parked = append(s.parked, g)
+			}
+		default:
+			return
+		}
+	}
+}
+
+//go:norace
+func (s *Sched) lockAvailable(r *request) bool {
+	c := r.want
 	c.st.Lock()
 	defer c.st.Unlock()
 	if r.write {
-		return c.writer == nil && c.readers == 0
+		return c.writer == 0 && c.readers == 0
 	}
-	if c.writer != nil {
+	if c.writer != 0 {
 		return false
 	}
 	// writer preference, as sync.RWMutex: a parked writer blocks new readers
-	for g := range s.parked {
-		if g.want != nil && g.want.c == c && g.want.write {
+	for _, g := range s.parked {
+		if g.req != nil && g.req.want == c && g.req.write {
 			return false
 		}
 	}
 	return true
 }
 
-// Parked returns the number of goroutines parked at a yield.
+// Parked returns the number of goroutines parked at a yield (driver only).
 func (s *Sched) Parked() int {
-	s.mu.Lock()
-	defer s.mu.Unlock()
+	raceDisable()
+	defer raceEnable()
+	s.drain()
 	return len(s.parked)
 }
 
 // Step waits for quiescence, then releases one enabled goroutine and waits
 // for quiescence again.
 func (s *Sched) Step() (Status, *G) {
+	raceDisable()
+	st, g := s.step()
+	raceEnable()
+	if RaceBuild {
+		raceAcquire(unsafe.Pointer(&s.driverToken))
+	}
+	return st, g
+}
+
+//go:norace
+func (s *Sched) step() (Status, *G) {
 	s.Wait()
-	s.mu.Lock()
+	s.drain()
 	if len(s.parked) == 0 {
-		s.mu.Unlock()
 		return Idle, nil
 	}
 	enabled := make([]*G, 0, len(s.parked))
-	for g := range s.parked {
-		if g.want == nil || s.lockAvailable(g.want) {
+	for _, g := range s.parked {
+		if g.req.want == nil || s.lockAvailable(g.req) {
 			enabled = append(enabled, g)
 		}
 	}
 	if len(enabled) == 0 {
-		s.mu.Unlock()
 		return LockDeadlock, nil
 	}
 	sort.Slice(enabled, func(i, j int) bool { return enabled[i].Name < enabled[j].Name })
@@ -263,38 +349,50 @@ func (s *Sched) Step() (Status, *G) {
 		s.hash = (s.hash ^ h.Sum64()) * 1099511628211
 	}
 	s.cur = g
-	delete(s.parked, g)
+	for i, p := range s.parked {
+		if p == g {
+			s.parked = append(s.parked[:i], s.parked[i+1:]...)
+			break
+		}
+	}
 	s.Steps++
 	s.stepCtr.Add(1)
 	s.addTrace(g.Name + " @" + g.Site)
-	s.mu.Unlock()
-	g.wake <- struct{}{}
+	r := g.req
+	g.req = nil
+	r.wake <- struct{}{}
 	s.Wait()
 	return Ran, g
 }
 
+//go:norace
 func (s *Sched) addTrace(line string) {
+	s.trMu.Lock()
 	if len(s.trace) >= 2*s.traceCap {
 		copy(s.trace, s.trace[len(s.trace)-s.traceCap:])
 		s.trace = s.trace[:s.traceCap]
 	}
-	s.trace = append(s.trace, fmt.Sprintf("%d %s", s.Steps, line))
+	s.trace = append(s.trace, strconv.Itoa(s.Steps)+" "+line)
+	s.trMu.Unlock()
 }
 
 // SetTraceCap sets how many trace lines are kept.
 func (s *Sched) SetTraceCap(n int) { s.traceCap = n }
 
-// Logf adds a harness line to the trace ring.
+// Logf adds a harness line to the trace ring (any goroutine).
 func (s *Sched) Logf(format string, a ...any) {
-	s.mu.Lock()
-	s.addTrace("# " + fmt.Sprintf(format, a...))
-	s.mu.Unlock()
+	line := "# " + fmt.Sprintf(format, a...)
+	raceDisable()
+	s.addTrace(line)
+	raceEnable()
 }
 
 // Trace returns the last lines of the trace.
+//
+//go:norace
 func (s *Sched) Trace(n int) []string {
-	s.mu.Lock()
-	defer s.mu.Unlock()
+	s.trMu.Lock()
+	defer s.trMu.Unlock()
 	t := s.trace
 	if len(t) > n {
 		t = t[len(t)-n:]
@@ -303,26 +401,37 @@ func (s *Sched) Trace(n int) []string {
 }
 
 // ScheduleHash identifies the sequence of context switches of this run.
-func (s *Sched) ScheduleHash() uint64 {
-	s.mu.Lock()
-	defer s.mu.Unlock()
-	return s.hash
-}
+func (s *Sched) ScheduleHash() uint64 { return s.hash }
 
-// ParkedNames lists parked goroutines with their sites and lock wishes.
+// ParkedNames lists parked goroutines with their sites and lock wishes (driver only).
 func (s *Sched) ParkedNames() []string {
-	s.mu.Lock()
-	defer s.mu.Unlock()
+	raceDisable()
+	s.drain()
 	var out []string
-	for g := range s.parked {
+	for _, g := range s.parked {
 		w := ""
-		if g.want != nil {
-			w = fmt.Sprintf(" wants lock#%d write=%v", g.want.c.id, g.want.write)
+		if g.req != nil && g.req.want != nil {
+			w = " wants lock#" + strconv.FormatInt(g.req.want.id.Load(), 10) + " write=" + strconv.FormatBool(g.req.write)
 		}
 		out = append(out, g.Name+" @"+g.Site+w)
 	}
+	raceEnable()
 	sort.Strings(out)
 	return out
+}
+
+// NameOf returns the scheduler's name of the goroutine with that id (driver
+// only, at quiescence).
+func (s *Sched) NameOf(goid string) string {
+	raceDisable()
+	defer raceEnable()
+	s.drain()
+	for id, g := range s.gs {
+		if strconv.FormatUint(id, 10) == goid {
+			return g.Name
+		}
+	}
+	return ""
 }
 
 // ---------------------------------------------------------------------------
@@ -330,50 +439,71 @@ func (s *Sched) ParkedNames() []string {
 
 type rwcore struct {
 	st      sync.Mutex
-	writer  *G
+	writer  uint64 // goroutine id of the holder (0: none)
 	readers int
-	id      int
+	id      atomic.Int64
+	rSem    byte // race builds: released by Unlock, acquired by RLock and Lock
+	wSem    byte // race builds: release-merged by RUnlock, acquired by Lock
 }
 
 func (s *Sched) lockID(c *rwcore) int {
-	s.mu.Lock()
-	defer s.mu.Unlock()
-	c.st.Lock()
-	defer c.st.Unlock()
-	if c.id == 0 {
-		s.nextL++
-		c.id = s.nextL
+	if v := c.id.Load(); v != 0 {
+		return int(v)
 	}
-	return c.id
+	c.id.CompareAndSwap(0, s.nextL.Add(1))
+	return int(c.id.Load())
 }
 
 func (s *Sched) lock(c *rwcore, write bool, site string) (acquired bool) {
-	g := s.me(site)
+	raceDisable()
+	acquired = s.lockInner(c, write, site)
+	raceEnable()
+	if acquired && RaceBuild {
+		// what sync.RWMutex tells the detector
+		raceAcquire(unsafe.Pointer(&c.rSem))
+		if write {
+			raceAcquire(unsafe.Pointer(&c.wSem))
+		}
+	}
+	return acquired
+}
+
+//go:norace
+func (c *rwcore) tryAcquire(goid uint64, write bool) bool {
+	c.st.Lock()
+	defer c.st.Unlock()
+	if write {
+		if c.writer == 0 && c.readers == 0 {
+			c.writer = goid
+			return true
+		}
+		return false
+	}
+	if c.writer == 0 {
+		c.readers++
+		return true
+	}
+	return false
+}
+
+func (s *Sched) lockInner(c *rwcore, write bool, site string) (acquired bool) {
+	goid := verifGoid()
 	id := s.lockID(c)
-	isDriver := verifGoid() == s.driver
+	isDriver := goid == s.driver
 	for {
 		if !isDriver {
-			s.park(g, site, &lockReq{c, write})
+			r := &request{goid: goid, site: site, want: c, write: write}
+			raceEnable() // park does its own disable/enable
+			s.park(r)
+			raceDisable()
 		}
-		c.st.Lock()
-		ok := false
-		if write {
-			if c.writer == nil && c.readers == 0 {
-				c.writer = g
-				ok = true
-			}
-		} else if c.writer == nil {
-			c.readers++
-			ok = true
-		}
-		c.st.Unlock()
-		if ok {
-			if s.OnLock != nil {
+		if c.tryAcquire(goid, write) {
+			if s.OnLock != nil && !RaceBuild {
 				k := "R"
 				if write {
 					k = "W"
 				}
-				s.OnLock(g, id, k)
+				s.OnLock(strconv.FormatUint(goid, 10), id, k)
 			}
 			return true
 		}
@@ -386,31 +516,44 @@ func (s *Sched) lock(c *rwcore, write bool, site string) (acquired bool) {
 	}
 }
 
-func (c *rwcore) simHeld(write bool) bool {
+//go:norace
+func (c *rwcore) simHeldInner(write bool) bool {
 	c.st.Lock()
 	defer c.st.Unlock()
 	if write {
-		return c.writer != nil
+		return c.writer != 0
 	}
 	return c.readers > 0
 }
 
-func (c *rwcore) unlock(write bool) {
+func (c *rwcore) simHeld(write bool) bool {
+	raceDisable()
+	defer raceEnable()
+	return c.simHeldInner(write)
+}
+
+//go:norace
+func (c *rwcore) release(write bool) {
 	c.st.Lock()
 	if write {
-		c.writer = nil
+		c.writer = 0
 	} else {
 		c.readers--
 	}
-	id := c.id
 	c.st.Unlock()
-	if s := active.Load(); s != nil && s.OnLock != nil {
-		k := "r"
+}
+
+func (c *rwcore) unlock(write bool) {
+	if RaceBuild {
 		if write {
-			k = "w"
+			raceRelease(unsafe.Pointer(&c.rSem))
+		} else {
+			raceReleaseMerge(unsafe.Pointer(&c.wSem))
 		}
-		s.OnLock(nil, id, k)
 	}
+	raceDisable()
+	c.release(write)
+	raceEnable()
 }
 
 // Mutex replaces sync.Mutex in instrumented packages.
@@ -436,14 +579,9 @@ func (m *Mutex) Unlock() {
 
 func (m *Mutex) TryLock() bool {
 	if s := active.Load(); s != nil {
-		g := s.me("trylock")
-		m.c.st.Lock()
-		defer m.c.st.Unlock()
-		if m.c.writer == nil && m.c.readers == 0 {
-			m.c.writer = g
-			return true
-		}
-		return false
+		raceDisable()
+		defer raceEnable()
+		return m.c.tryAcquire(verifGoid(), true)
 	}
 	return m.real.TryLock()
 }
@@ -486,27 +624,18 @@ func (m *RWMutex) RUnlock() {
 
 func (m *RWMutex) TryLock() bool {
 	if s := active.Load(); s != nil {
-		g := s.me("trylock")
-		m.c.st.Lock()
-		defer m.c.st.Unlock()
-		if m.c.writer == nil && m.c.readers == 0 {
-			m.c.writer = g
-			return true
-		}
-		return false
+		raceDisable()
+		defer raceEnable()
+		return m.c.tryAcquire(verifGoid(), true)
 	}
 	return m.real.TryLock()
 }
 
 func (m *RWMutex) TryRLock() bool {
 	if s := active.Load(); s != nil {
-		m.c.st.Lock()
-		defer m.c.st.Unlock()
-		if m.c.writer == nil {
-			m.c.readers++
-			return true
-		}
-		return false
+		raceDisable()
+		defer raceEnable()
+		return m.c.tryAcquire(verifGoid(), false)
 	}
 	return m.real.TryRLock()
 }
